@@ -192,6 +192,37 @@ def r2(ctx):
             ctx.check("ExecutionManager::run:%s-response" % kind, only_err,
                       "a client response is dropped only when it cannot be indexed (catalogued exception), otherwise its event is sent",
                       got=render_guard(gsend)[-300:], key="exception-only")
+        # escape edges: inside the arm (entered on select branch idx), every decision edge that leaves the blocks from which the
+        # send is still reachable and gets back to the loop head must be the catalogued one: process_*_response(..) is Err
+        hs = set(heads)
+        entry = []
+        for x in b.reachable:
+            if b.blocks[x]["term"]["t"] == "switch":
+                for lab, y in b.succ[x]:
+                    a = b.edge_atom(x, lab)
+                    if a[0] == "is" and a[2] == frozenset(["_%d" % idx]) and render(a[1]).endswith(".as:Ready.0"):
+                        entry.append(y)
+        region, stack = set(), list(entry)
+        while stack:
+            x = stack.pop()
+            if x in region or x in hs or x == mir.EXIT:
+                continue
+            region.add(x)
+            stack.extend(y for _, y in b.succ[x])
+        can_send = {x for x in region if x == sb or sb in _reach_avoiding(b, x, {sb}, hs)}
+        escapes = []
+        for x in sorted(can_send - {sb}):
+            for lab, y in b.succ[x]:
+                if y in can_send:
+                    continue
+                if y in hs or y == mir.EXIT or _reach_avoiding(b, y, hs | {mir.EXIT}, set()):
+                    a = b.edge_atom(x, lab)
+                    escapes.append((x, a))
+        bad = [mir.render_atom(a)[-140:] if a else "unconditional@bb%d" % x for x, a in escapes
+               if not (a and a[0] == "is" and a[1] == resp[0][2] and a[2] == frozenset(["Err"]))]
+        ctx.check("ExecutionManager::run:%s-response" % kind, len(entry) == 1 and sb in region and not bad,
+                  "inside the arm, the only decision that skips the send is `process_%s_response(..) is Err` (no other condition "
+                  "drops a completion)" % kind, got=bad, key="escape-edges")
         # exactly once: the send is not in an inner loop of its own
         ctx.check("ExecutionManager::run:%s-response" % kind, sb not in _reach_avoiding(b, sb, {sb}, set(heads)),
                   "the event is sent once per completion", key="once")
@@ -279,9 +310,17 @@ def r4(ctx):
               "the response is attributed to the indexed key of the responded order itself", got=[x[:300] for x in r], key="attribution")
 
 
+def r5(ctx):
+    from rules import C04
+    C04.r4(ctx)
+    C04.r5(ctx)
+    C04.r6(ctx)
+
+
 RULES = [
     ("R1", "intake: every Cancel/Open request is pushed as RequestFuture(client call of its translation, timeout, that request)", r1),
     ("R2", "each completion yields exactly one sent event (response or timeout), per matching set; catalogued exception only", r2),
     ("R3", "RequestFuture: tokio timeout wrapper; elapse -> Err(original request)", r3),
     ("R4", "attribution of timeout / response events to the request's own exchange, instrument, cid", r4),
+    ("R5", "attribution depends on the indexer: keyed inverse tables, role-preserving translation, own exchange only (C04.R4-R6)", r5),
 ]
